@@ -215,6 +215,8 @@ class Evaluator:
             return
         if isinstance(st, ast.For):
             it = self.eval(st.iter, env)
+            if isinstance(it, dict):
+                it = list(it)       # iterating a dict yields its keys (a snapshot: resizing while iterating is an error anyway)
             if not isinstance(it, (list, tuple)):
                 raise Unsupported("iteration over a non-list value at line %d" % st.lineno)
             broke = False
@@ -713,6 +715,16 @@ class Evaluator:
                 start = args[1] if len(args) == 2 else 0
                 if isinstance(start, int):
                     return [(i + start, x) for i, x in enumerate(args[0])]
+            if f.id == "zip" and args and all(isinstance(a, (list, tuple, dict)) for a in args) and not e.keywords:
+                return [tuple(x) for x in zip(*[list(a) for a in args])]
+            if f.id == "dict" and len(args) == 1 and not e.keywords and isinstance(args[0], (list, tuple)) and \
+                    all(isinstance(x, tuple) and len(x) == 2 for x in args[0]):
+                try:
+                    return dict(args[0])
+                except TypeError:
+                    raise Unsupported("dict() over unhashable abstract keys")
+            if f.id == "dict" and len(args) == 1 and not e.keywords and isinstance(args[0], dict):
+                return dict(args[0])
             if f.id == "iter" and len(args) == 1:
                 if isinstance(args[0], (list, tuple, dict, str, AStr, set, frozenset)):
                     return list(args[0]) if not isinstance(args[0], AStr) else args[0]
